@@ -139,7 +139,7 @@ WorkerAgrees(W, w, e) ==
   /\ SeqMsgEq(W.msgs, SentTo(e, "w2s", w))
 \* the worker record of the model from the logged state before the step (the pre-state backlog order comes from the previous line)
 WRecOf(w, pre) == [running |-> wk[w].running, wq |-> WkqOf(pre, w), blocked |-> wk[w].blocked, cur |-> <<>>, msgs |-> <<>>, starts |-> <<>>,
-                   stops |-> <<>>, fut |-> fut, armed |-> {}, ok |-> TRUE, used |-> FALSE]
+                   stops |-> <<>>, fut |-> fut, armed |-> {}, ok |-> TRUE, used |-> FALSE, rem |-> wk[w].remaining]
 
 ConfS2W(e, pre) ==
   LET m == e.args.m  w == e.args.w IN
